@@ -85,6 +85,8 @@ def main():
     json.dump(meta, open(os.path.join(dest, "meta.json"), "w"), indent=1)
     shutil.rmtree(scr, ignore_errors=True)
     shutil.rmtree(tb, ignore_errors=True)
+    import hashlib
+    shutil.rmtree(os.path.join(ROOT, "work", "alt-" + hashlib.sha1(os.path.abspath(scr).encode()).hexdigest()[:10]), ignore_errors=True)
     return 0
 
 
